@@ -17,6 +17,7 @@
 package messageview
 
 import (
+	"bufio"
 	"bytes"
 	"compress/flate"
 	"compress/gzip"
@@ -253,12 +254,21 @@ func (mv *MessageView) BodyReader(opts ...Option) (io.ReadCloser, error) {
 	br := bytes.NewReader(mv.message)
 	r = io.NewSectionReader(br, mv.bodyoffset, mv.traileroffset-mv.bodyoffset)
 
-	if !conf.decode {
+	if !conf.decode || mv.traileroffset == mv.bodyoffset {
+		// Nothing to decode: the body was skipped or is empty.
 		return ioutil.NopCloser(r), nil
 	}
 
 	if mv.chunked {
 		r = httputil.NewChunkedReader(r)
+	}
+	if mv.compress == "gzip" || mv.compress == "deflate" {
+		// An empty body is not a compressed stream: nothing to decompress.
+		br := bufio.NewReader(r)
+		if _, err := br.Peek(1); err == io.EOF {
+			return ioutil.NopCloser(br), nil
+		}
+		r = br
 	}
 	switch mv.compress {
 	case "gzip":
